@@ -240,7 +240,10 @@ func GenLayout(r *rand.Rand, cfg LayoutCfg, id, pkgRel string) *Scenario {
 		if cfg.MidLine && g.chance(0.1) {
 			// positions reported after this line carry another file name and/or line numbers that collide with
 			// those of earlier lines; the declarations that follow still belong to THIS file
-			g.sb.WriteString([]string{"//line other.go:10", "//line setup.go:1", "//line setup.go:3", "//line sub/gen.tmpl:5"}[r.Intn(4)] + "\n\n")
+			// (the directive stands directly on a declaration of its own: a FLOATING //line comment is moved around
+			// by gofmt's directive handling once neighbouring comments are removed, which is not what is probed here)
+			g.sb.WriteString([]string{"//line other.go:10", "//line setup.go:1", "//line setup.go:3", "//line sub/gen.tmpl:5"}[r.Intn(4)] + "\n")
+			fmt.Fprintf(&g.sb, "var %s = 0\n\n", g.name("lineAnchor"))
 			g.vec = append(g.vec, "mid-line-directive")
 		}
 		if cfg.Surround {
